@@ -516,14 +516,15 @@ pub fn run(p: &Params) -> (Stats, &'static str) {
             faulted(&mut st, &base, Trigger::RecvIdx(k), FaultKind::Garbage(vec![0x7f, 1, 2, 3, 4, 5]), "Err(InvalidFrame)", false);
             faulted(&mut st, &base, Trigger::RecvIdx(k), FaultKind::Silent { close_ok: true }, "Err(KeepaliveTimeout)", true);
             faulted(&mut st, &base, Trigger::RecvIdx(k), FaultKind::Silent { close_ok: false }, "Err(KeepaliveTimeout)", true);
+            faulted(&mut st, &base, Trigger::RecvIdx(k), FaultKind::SilentBlockedSink, "Err(KeepaliveTimeout)", true);
         }
         for k in (0..m_send).step_by(step) {
             faulted(&mut st, &base, Trigger::SendIdx(k), FaultKind::SendErr { silent_source: true }, "Err(WebSocket)", false);
             faulted(&mut st, &base, Trigger::SendIdx(k), FaultKind::SendErr { silent_source: false }, "Err(WebSocket)", false);
         }
-        st.exhaustive.push("every cut index of every base scenario x 8 fault kinds".into());
+        st.exhaustive.push("every cut index of every base scenario x 9 fault kinds".into());
         if st.samples.len() < 2 {
-            st.sample(json!({"base": streams::describe(&base), "messages_received": m_recv, "messages_sent": m_send, "cut_points_x_kinds": (m_recv + 1) * 6 + m_send * 2}));
+            st.sample(json!({"base": streams::describe(&base), "messages_received": m_recv, "messages_sent": m_send, "cut_points_x_kinds": (m_recv + 1) * 7 + m_send * 2}));
         }
         if st.too_many_violations() {
             break;
@@ -541,6 +542,15 @@ pub fn run(p: &Params) -> (Stats, &'static str) {
     let n_drop = p.share(if p.tier_thorough { 2_000_000 } else { 4_000 });
     for i in 0..n_drop {
         drop_flush_case(&mut st, mix(base_seed, 0xD0_0000 + i));
+        if st.too_many_violations() {
+            break;
+        }
+    }
+    // local drop while the application keeps (and keeps reading) its streams: what the peer's frames had carried to this
+    // endpoint before the connection ended is read before end-of-stream (the executions of C05's extra scenario)
+    let n_held = p.share(if p.tier_thorough { 800_000 } else { 3_000 });
+    for i in 0..n_held {
+        crate::c05x::held_case(&mut st, mix(base_seed, 0xE1_0000 + i));
         if st.too_many_violations() {
             break;
         }
